@@ -2,7 +2,7 @@
    receive buffer, leases) preserved by EVERY operation of Model/LinkedBuffer.step, from which the
    full refinement to the byte queue (C06) and the lease safety (C08) follow. *)
 From Coq Require Import List ZArith Lia Bool Arith.
-From Shm Require Import Gen.Consts Gen.SwitchC07 Gen.SwitchC08 Model.LinkedBuffer Proofs.LinkedBufferProofs Proofs.LinkedBufferStore
+From Shm Require Import Gen.Consts Model.LinkedBuffer Proofs.LinkedBufferProofs Proofs.LinkedBufferStore
   Proofs.LinkedBufferWriter Proofs.LinkedBufferXfer.
 Import ListNotations.
 Close Scope Z_scope.
@@ -603,7 +603,7 @@ Lemma Inv_flush s sp idss : Inv s sp idss ->
   exists s' idss', flush s = Ok s' /\ Inv s' {| pw := []; infl := infl sp ++ pw sp; av := av sp |} idss'.
 Proof.
   intros I. pose proof I as [I1 I2 I3 I4 I5 I6 I7 I8 I9 [I10a I10b] I11 I12 I13 I14 I15 I16 I17]. pose proof I2 as [W1 W2 W3 W4 W5 W6 W7].
-  unfold flush. destruct (Z.eqb_spec (len (snd s)) 0) as [Hz|Hnz].
+  unfold flush_gen. destruct (Z.eqb_spec (len (snd s)) 0) as [Hz|Hnz].
   - exists s, idss. split; [reflexivity|].
     assert (Hpw : pw sp = []) by (apply length_zero_iff_nil; rewrite W3, I3 in Hz; lia).
     apply (Inv_spec_eq s sp); cbn [pw infl av]; auto. rewrite Hpw, app_nil_r. reflexivity.
@@ -611,7 +611,7 @@ Proof.
     destruct (fromshm (snd s)) eqn:Ef.
     + destruct (done_chain (mem s) (snd s) (wpre_of_Inv _ _ _ I) Ef Hlen) as [m1 [Hd [[D1 D2 D3 D4 D5 D6 D7] Hne]]].
       rewrite Hd. cbn [bind]. rewrite Ef. cbn [negb]. rewrite orb_false_r.
-      change sw_fallback_sticky with true. cbn [andb].     (* the proof is about the sticky flag of the source *)
+      cbn [andb].     (* the sticky variant *)
       destruct (infb s) eqn:Eb.
       * (* the stream is already in fallback state *)
         unfold lb_recycle, clean_pinned. rewrite (proj1 I17). eexists. exists idss. split; [reflexivity|].
@@ -1051,7 +1051,7 @@ Proof.
   { intros n Hn. pose proof (Inv_read_more s sp idss n I) as H. destruct (spec_more n sp) as [sp1|]; [|exact H].
     destruct H as [s1 [idss1 [H1 [H2 H3]]]]. exists s1, idss1. split; [exact H1|]. split; [exact H2|]. split; [exact H3|].
     destruct (Inv_lens _ _ _ H2) as [E _]. rewrite E. apply Nat2Z.inj_le. exact H3. }
-  destruct o; cbn [spec_step step].
+  destruct o; cbn [spec_step step_gen].
   - (* WBytes *)
     destruct bs as [|b0 bs0] eqn:Eb.
     + cbn [write_bytes bind length]. eexists. eexists. exists idss. split; [reflexivity|]. split; [reflexivity|].
@@ -1159,7 +1159,7 @@ Proof.
     pose proof (Inv_close s sp idss I) as H. destruct (lb_recycle (mem s) (rcv s)) as [m1 l1].
     eexists. eexists. exists idss. split; [reflexivity|]. split; [reflexivity|exact H].
   - (* RPeerClose: the sweep of the callback goroutine does not run for a half-closed stream *)
-    change sw_sweep_needs_closed with true. cbv iota.
+    cbv iota.
     eexists. eexists. exists idss. split; [reflexivity|]. split; [reflexivity|exact I].
   - (* OAlloc *)
     destruct (allocShmBuffer (mem s) n) as [[b m1]|] eqn:Eal.
